@@ -24,7 +24,9 @@ def famTrav (kv : KV) : String × String :=
   let ioff := if idxName == "none" then 0 else 51 + dp + v1.length + ip
   let eng := KV.getD kv "eng" "ok"
   let res :=
-    if eng != "ok" then "r=err"
+    if eng != "ok" then
+      -- the engine failed part-way: the writers that return a byte count still return what went out
+      (if kind == "v1" || (kind == "v2sel" && KV.getD kv "opened" "1" == "1") then "r=err nsame=1" else "r=err")
     else if kind == "v2sel" then s!"r=ok n={total} len={total} hdr={51 + dp}.{countedSize roots get loads}.{ioff} v1={hexOr v1}"
     else if kind == "v1" then s!"r=ok n={v1.length} v1={hexOr v1}"
     else if kind == "file" then s!"r=ok len={total} hdr={51 + dp}.{v1.length}.{ioff} v1={hexOr v1}"
